@@ -458,7 +458,7 @@ static void compareReference(const Prog &p, const Run &r, const Model &m, std::v
   if (e && g && e->pass != g->pass) { if (e->pass < g->pass) g = nullptr; else e = nullptr; }
   pass = e ? e->pass : g->pass;
   const char *op = pass < m.npass ? kOpName[m.passop[pass]] : "later-call";
-  add(std::string("hooks-differ-from-reference-in-") + op + "-expected-" + desc(e) + "-got-" + desc(g),
+  add(std::string("hooks-differ-from-reference-in-") + op + "-expected-" + desc(e) + "-got-" + (g ? std::string(kHookName[g->kind]) + "-hook" : std::string("no-more-hooks")),
       "at hook#" + std::to_string(i) + " pass" + std::to_string(pass) + "; reference log=[" + logStr(m.log, m.nlog) + "]");
 }
 
